@@ -44,6 +44,9 @@ def canonical_single_file(macros, routines):
 
 
 def evaluate(case, stt):
+    if case.get("kind") == "environment":
+        r = env_compare(case["files"])
+        return [Failure(r[0], r[1])] if r else []
     fails = []
     multi = bool(case.get("multi"))
     if multi:
@@ -211,3 +214,76 @@ def shrink_candidates(case):
                 p = dict(p)
                 p.pop("order")
             yield p
+
+
+# --------------------------------------------------------------------------------------
+# environment stage: the same files compiled by an interpreter whose locale encoding is not UTF-8
+# --------------------------------------------------------------------------------------
+_STRINGS = ["Pok\u00e9mon", "\u65e5\u672c\u8a9e\u306e\u30c6\u30ad\u30b9\u30c8", "na\u00efve \u2013 caf\u00e9", "\u00c4\u00d6\u00dc\u00df \u20ac", "\u0416\u0443\u043a", "Cafe\u0301 \U0001f600"]
+
+
+def env_compare(files: dict, stats=None):
+    """-> (bucket, message) or None. files: relative path -> text; proj/main.exps is compiled with look/ as lookup path."""
+    import json
+    import shutil
+    import subprocess
+    import sys
+    import tempfile
+
+    from vf import localeproc
+    from vf.core import REPO, VERIF
+
+    d = tempfile.mkdtemp(prefix="vf-c05env-")
+    try:
+        for rel, text in files.items():
+            os.makedirs(os.path.dirname(os.path.join(d, rel)), exist_ok=True)
+            with open(os.path.join(d, rel), "w", encoding="utf-8", newline="") as fh:
+                fh.write(text)
+        main, look = os.path.join(d, "proj", "main.exps"), os.path.join(d, "look")
+        os.makedirs(look, exist_ok=True)
+        here = localeproc.result(main, [look])
+        env = dict(os.environ, PYTHONPATH=str(REPO) + os.pathsep + str(VERIF), LC_ALL="C", LANG="C", PYTHONCOERCECLOCALE="0", PYTHONUTF8="0", PYTHONHASHSEED="0")
+        env.pop("PYTHONIOENCODING", None)
+        p = subprocess.run([sys.executable, "-X", "utf8=0", "-m", "vf.localeproc", main, look], capture_output=True, env=env, cwd=str(VERIF), timeout=300)
+        if p.returncode != 0:
+            raise RuntimeError("environment stage child failed: " + p.stderr.decode("utf-8", "replace")[-400:])
+        there = json.loads(p.stdout.decode("ascii"))
+        enc = str(there.pop("preferred_encoding"))
+        if stats is not None:
+            stats.count("child_encoding:" + enc)
+        bom = files["proj/main.exps"].startswith("\ufeff")
+        if here != there:
+            return "environment:locale_changes_result", f"UTF-8 interpreter: {json.dumps(here)[:400]}\nC-locale interpreter ({enc}): {json.dumps(there)[:400]}"
+        if "raised" in here and not bom:  # (what a BOM means to the grammar is not this stage's matter)
+            return "environment:workspace_rejected", json.dumps(here)[:400]
+        return None
+    finally:
+        shutil.rmtree(d, ignore_errors=True)
+
+
+def extra(ctx):
+    """ExplorerScript files are UTF-8 whatever the platform's default encoding is: a main file that imports macro files
+    with non-ASCII strings (relative import, lookup-path import, two levels; CR LF and BOM variants of the main file)
+    compiles to the same ops in an interpreter started under the C locale with UTF-8 mode and locale coercion off as it
+    does here. A fixed family of workspaces (strings rotate with VERIF_SEED); quick 4, thorough 12 child processes."""
+    from vf.core import known_buckets, write_replay
+
+    n = 4 if ctx.tier == "quick" else 12
+    kb = known_buckets(ctx.known)
+    for k in range(n):
+        s1 = _STRINGS[(ctx.seed + k) % len(_STRINGS)]
+        s2 = _STRINGS[(ctx.seed + 2 * k + 1) % len(_STRINGS)]
+        files = {
+            "proj/lib/strs.exps": f'import "shared/deep.exps";\nmacro say($who) {{ message_Talk("{s1}"); ~deep($who); }}\n',
+            "look/shared/deep.exps": f"macro deep($w) {{ message_Notice({{english=\"{s2}\", german='{s1}'}}); Mark(Position<'{s2[:3]}', 1, 2.5>); Use($w); }}\n",
+            "proj/main.exps": f'import "./lib/strs.exps";\ndef 0 {{ ~say({k}); Own("{s2}"); end; }}\n',
+        }
+        if k % 2:
+            files["proj/main.exps"] = "\ufeff" + files["proj/main.exps"] if k % 4 == 3 else files["proj/main.exps"].replace("\n", "\r\n")
+        ctx.stats.evaluations += 1
+        ctx.stats.count("environment_stage_runs")
+        r = env_compare(files, ctx.stats)
+        if r is not None and r[0] not in kb and not any(v[0] == r[0] for v in ctx.violations):
+            path = write_replay(ID, r[0], {"kind": "environment", "files": files}, r[1])
+            ctx.violations.append((r[0], path))
+            print(f"  {r[0]}: {r[1][:600]}")
